@@ -475,12 +475,30 @@ func checkC11(c *Ctx) {
 			}
 		})
 		defer unhook()
-		a, err := newAutoCache(root, anchor, all)
+		first := all
+		reconfigured := armed == nil && chance(r, 15)
+		if reconfigured {
+			// the cache starts out on as many other directories and is then told the
+			// real ones: what it follows from then on are the directories in force
+			first = []string{anchor}
+			for i := 1; i < len(all); i++ {
+				d := filepath.Join(root, fmt.Sprintf("decoy%d", i))
+				must(os.MkdirAll(d, 0o755))
+				first = append(first, d)
+			}
+		}
+		a, err := newAutoCache(root, anchor, first)
 		if err != nil {
 			c.Inconclusive("no-inotify")
 			return
 		}
 		defer a.Close()
+		if reconfigured {
+			o, reuse := withDirs(all)
+			a.C.Configure(o)
+			reuse()
+			c.Count("histories_on_a_reconfigured_cache", 1)
+		}
 		initial, _ := cacheState(a.C, all)
 		steps := 1 + r.Intn(12)
 		if len(kinds) > 0 && chance(r, 50) {
